@@ -1238,3 +1238,4 @@ M('c12-validate-logs-and-continues', 'C12', "            pack_errors = self._val
 # ------------------------------------------------------------------------------------------------ round 5 batch 3
 M('c18-close-noop-when-flagged-closed', 'C18', "        \"\"\"Close open files (in particular, the connection to the SQLite DB).\"\"\"\n        self._close_operation_session()", "        \"\"\"Close open files (in particular, the connection to the SQLite DB).\"\"\"\n        if getattr(self, '_closed', False):\n            return\n        self._closed = True\n        self._close_operation_session()", 'C18.R1c')
 M('c17-clean-storage-expire-instead-of-close', 'C17', "        # Force reload of the session to get the most up-to-date packed objects\n        self.close()\n\n        session = self._get_operation_session()", "        # Force reload of the session to get the most up-to-date packed objects\n        session = self._get_operation_session()\n        session.expire_all()", 'C17+C05.R3')
+M('c18-writer-leaks-handle-on-error', 'C18', "            if self._filehandle is not None and not self._filehandle.closed:\n                self._filehandle.close()\n            if self._obj_path is not None and self._obj_path.exists():", "            if self._filehandle is not None and not self._filehandle.closed:\n                pass\n            if self._obj_path is not None and self._obj_path.exists():", 'C18.R1', U)
